@@ -25,8 +25,9 @@ CONSTANTS
   MaxConnEv = 3
   MaxApi = 0
   StopKinds <- SK_Stop
+  OutKinds <- OK_Del
   Faults <- NoFaults
   Dev <- NoDev
 CONSTRAINT NoOverflow
 CHECK_DEADLOCK FALSE
-INVARIANTS NoViolation C08_Mirror C09_Final C18_Consistent C19_Ctx C11_Grace
+INVARIANTS NoViolation C08_Mirror C09_Final C18_Consistent C19_Ctx C11_Grace C03_Bound
